@@ -1,6 +1,5 @@
 (* Stream-level decode = denote: the theorems the properties C02, C12, C13, C16 cite, in their
-   final form, a concrete stream showing the hypotheses are satisfiable, and the witnesses showing
-   that the time side condition [no_time_quirk] is needed (the two C12 known findings). *)
+   final form. *)
 From Coq Require Import NArith ZArith List Bool Lia Arith.
 From Coq Require Import ZifyN ZifyNat ZifyBool.
 From FitV Require Import Proofs.Util Model.Values Model.Bytes Model.Base Model.Profile Model.Reflect Model.IO
@@ -36,10 +35,10 @@ Proof.
 Qed.
 
 (* C02 decode_denote, abstract interpreter: every serialisable stream the reference semantics accepts and that
-   stays off the recorded time defects is decoded, without error, to exactly the messages of [denote],
+   is decoded, without error, to exactly the messages of [denote],
    routed in stream order; the whole data part is consumed; the unknown counters are the spec's. *)
 Theorem decode_denote_abstract : forall o h g rs ss1 f2 g1 tl t,
-  starts_with_file_id rs = true -> stream_wf rs = true -> no_time_quirk rs = true -> denote rs = Some ss1 ->
+  starts_with_file_id rs = true -> stream_wf rs = true -> denote rs = Some ss1 ->
   start_file h g (hd dummy_msg (ss_msgs ss1)) = Some (f2, g1) ->
   let L := List.length (ser_records rs) in
   exists s1 f g',
@@ -49,11 +48,11 @@ Theorem decode_denote_abstract : forall o h g rs ss1 f2 g1 tl t,
     (o_unkm o = true -> ds_unkm s1 = ss_unkm ss1) /\ (o_unkf o = true -> ds_unkf s1 = ss_unkf ss1) /\
     (exists ft, Inv o [hd dummy_msg (ss_msgs ss1)] f2 g1 ft s1 ss1).
 Proof.
-  intros o h g rs ss1 f2 g1 tl t Hshape Hwf Hq Hden Hstart L.
+  intros o h g rs ss1 f2 g1 tl t Hshape Hwf Hden Hstart L.
   destruct rs as [|[l be gmn fds devflag devs| |] [|[| l' pay dev |] rest]]; try discriminate.
   cbn [starts_with_file_id] in Hshape. apply andb_prop in Hshape. destruct Hshape as [Eg El].
   apply N.eqb_eq in Eg, El. subst gmn l'.
-  destruct (data_prog_denote o h g l be fds devflag devs pay dev rest ss1 f2 g1 tl t (S L) Hwf Hq Hden Hstart) as (s1 & ft & Hrun & HI).
+  destruct (data_prog_denote o h g l be fds devflag devs pay dev rest ss1 f2 g1 tl t (S L) Hwf Hden Hstart) as (s1 & ft & Hrun & HI).
   { unfold L. pose proof (records_le_bytes (RDef l be c_MesgNumFileId fds devflag devs :: RData l pay dev :: rest)) as H.
     cbn [List.length] in H. lia. }
   destruct (inv_msgs _ _ _ _ _ _ _ HI) as (ms & Hms & Hadds).
